@@ -49,7 +49,7 @@ Section Push.
     end.
 
   (* [n] = number of slots (num_clauses + 1) *)
-  Definition push (n : nat) (fn : clause -> keep) (t : tape) : tape :=
+  Definition tape_push (n : nat) (fn : clause -> keep) (t : tape) : tape :=
     if t_terminal t then t
     else
       let s0 := {| p_dis := upd (repeat true n) (t_root t) (fun _ => false);
